@@ -7,7 +7,7 @@
 // Output per case:   "B <n>" (case n begun; lets the driver name the case when a sanitizer aborts the process), then
 //     "N"                      dispatch_data_create_with_transform returned NULL
 //     "D <size> <hex|->"       result size as reported by dispatch_data_get_size and its bytes
-//                              ("-" when empty; "!" when the size is not believable (> 2^26) and is not touched)
+//                              ("-" when empty; "!" when the size is not believable (> 2^20) and is not touched)
 #include <dispatch/dispatch.h>
 #define __DISPATCH_INDIRECT__ 1
 #include "data_private.h"
@@ -72,7 +72,7 @@ int main(void) {
 			printf("N\n");
 		} else {
 			size_t sz = dispatch_data_get_size(res);
-			if (sz > ((size_t)1 << 26)) {
+			if (sz > ((size_t)1 << 20)) {
 				printf("D %zu !\n", sz);
 			} else if (sz == 0) {
 				printf("D 0 -\n");
@@ -87,7 +87,7 @@ int main(void) {
 			}
 			// transform.c returns the argument itself (not retained) for empty input; results with a bogus size
 			// must not be destroyed either
-			if (res != data && sz <= ((size_t)1 << 26)) dispatch_release(res);
+			if (res != data && sz <= ((size_t)1 << 20)) dispatch_release(res);
 		}
 		dispatch_release(data);
 		fflush(stdout);
